@@ -326,3 +326,7 @@ def expected(m):
         exp[("extra", "nuc_viral")] = Approx(float(p["wvirial"]), rtol=rel)
         exp[("extra", "full_virial_ratio")] = Approx(float(p["full_virial"]), rtol=rel)
     return exp
+
+
+# Classes that are generated but NOT asserted by C03 (triage decisions, see DESIGN.md section 7): class -> reason
+NOT_ASSERTED = {'no_spin_types': 'UNVERIFIED-SPEC (whether the section is optional)'}
